@@ -224,10 +224,10 @@ type BlockBuilder struct {
 	taxMoved bool
 	// v1 contracts formed by transactions built or absorbed so far (a v1
 	// revision may follow its formation inside one block / one pool)
-	ephFC []types.FileContractElement
-	usedWE   map[uint64]bool
-	serial   int
-	onlyFC   *types.FileContractID
+	ephFC  []types.FileContractElement
+	usedWE map[uint64]bool
+	serial int
+	onlyFC *types.FileContractID
 }
 
 // NewBlockBuilder creates a builder for a child of l.
@@ -339,8 +339,7 @@ func (bb *BlockBuilder) pickWindowEnd(want uint64) uint64 {
 	if !bb.UniqueWindows {
 		return want
 	}
-	req := bb.L.State.Network.HardforkV2.RequireHeight
-	for bb.L.UsedWindowEnds[want] || bb.usedWE[want] || want == req {
+	for bb.L.UsedWindowEnds[want] || bb.usedWE[want] {
 		want++
 	}
 	bb.usedWE[want] = true
@@ -708,9 +707,6 @@ func (bb *BlockBuilder) Add(in Intent) bool {
 			if ws < bb.Height {
 				ws = bb.Height
 			}
-			if we == bb.L.State.Network.HardforkV2.RequireHeight {
-				we++
-			}
 		}
 		fc := types.FileContract{
 			WindowStart: ws, WindowEnd: we, Payout: payout, UnlockHash: Actors[who].Addr,
@@ -794,9 +790,6 @@ func (bb *BlockBuilder) Add(in Intent) bool {
 			rev.WindowEnd = bb.pickWindowEnd(rev.WindowStart + uint64(1+mod(in.B/2, 3)))
 			if !bb.UniqueWindows {
 				rev.WindowEnd = (rev.WindowStart/3 + 1 + uint64(mod(in.B, 2))) * 3
-				if rev.WindowEnd == bb.L.State.Network.HardforkV2.RequireHeight {
-					rev.WindowEnd++
-				}
 			}
 		}
 		if mod(in.Amt, 2) == 1 && len(rev.ValidProofOutputs) == 2 { // move value renter -> host
